@@ -242,6 +242,9 @@ class Calls(DataModels):
             if name == 'getvalue':
                 return SBytes(obj.arr, 0, obj.length)
             raise Unsupported('stream.%s' % name)
+        from .vals import FormParser
+        if isinstance(obj, FormParser) and name == 'parse_stream':
+            return self.parse_at(I, obj, args[0], ln, exc='ConstructError')
         if isinstance(obj, _struct_mod.Struct) and name == 'unpack':
             return _b_struct_unpack(self, I, [obj.format, args[0]], {}, node)
         if isinstance(obj, SObj):
@@ -552,7 +555,7 @@ class Calls(DataModels):
         # effects: a callee may leave every stream it can reach at any position (its postconditions may
         # say more, e.g. that the position is preserved); this is what makes every proved postcondition
         # independent of where earlier queries left the shared streams (C10)
-        if not I.pure:
+        if not I.pure and not getattr(c, 'pure_fn', False):
             for st in self.reachable_streams(fr):
                 st.pos = I.ctx.const(st.name + '.pos!c', IntS)
                 I.ctx.assume(st.pos >= 0)
@@ -761,6 +764,9 @@ class Calls(DataModels):
 
     def parse_at(self, I, struct, stream, ln, exc='ELFParseError'):
         p = stream.pos
+        from .vals import FormParser
+        if isinstance(struct, FormParser):
+            return self.parse_form(I, struct, stream, ln, exc)
         if isinstance(struct, StructRef) and getattr(struct, 'array', None):
             return self.parse_array(I, struct.array[0], struct.array[1], stream, ln, exc)
         if isinstance(struct, StructRef) and struct.name == 'Elf_ntbs':
@@ -800,6 +806,29 @@ class Calls(DataModels):
             stream.pos = z3.simplify(pz + to_int(size))
         else:
             stream.pos = z3.Function('end!' + lay.name, ArrS, IntS, IntS)(stream.arr, pz)
+        return val
+
+    def parse_form(self, I, fp, stream, ln, exc):
+        """abstract operand parser of an attribute form (see vals.FormParser)"""
+        ow = fp.owner
+        cfg = [to_int(ow.attrs[a]) for a in ('dwarf_format', 'address_size', 'dwarf_version')]
+        nm = to_str(fp.name)
+        p0, L = to_int(stream.pos), to_int(stream.length)
+        sorts = [ArrS, IntS, StrS, IntS, IntS, IntS]
+        val = z3.Function('form.val', *(sorts + [IntS]))(stream.arr, p0, nm, *cfg)
+        end = z3.Function('form.end', *(sorts + [IntS]))(stream.arr, p0, nm, *cfg)
+        ok = z3.Function('form.ok', *([ArrS, IntS, IntS, StrS, IntS, IntS, IntS, BoolS]))(stream.arr, L, p0, nm, *cfg)
+        if not I.ctx.branch(ok):
+            raise PyExc(exc if exc != 'ConstructError' else 'FieldError', ln, 'short read in attribute form')
+        I.ctx.assume(z3.And(end >= p0, end <= L))
+        # form table entries the specifications name: DW_FORM_indirect is a ULEB128 number (7.5.3); flag_present and
+        # implicit_const occupy no bytes
+        uval = z3.Function('leb.u.val', ArrS, IntS, IntS)(stream.arr, p0)
+        uend = z3.Function('leb.end', ArrS, IntS, IntS)(stream.arr, p0)
+        I.ctx.assume(z3.Implies(nm == z3.StringVal('DW_FORM_indirect'), z3.And(val == uval, end == uend, uend > p0, uval >= 0)))
+        stream.pos = end
+        I.assumptions.add('attribute form parsers are abstract (value/end functions of bytes, position, form, format, address size, version); '
+                          'the real form table is the K2 obligation; DW_FORM_indirect is taken to be a ULEB128 number as K2 establishes')
         return val
 
     def parse_array(self, I, count, sub, stream, ln, exc):
